@@ -45,6 +45,8 @@ EXPECTED_PROBES = ["fault_before_first_attr", "fault_in_write_skip_metadata",
                    "genuine_unpicklable_attribute", "second_fault_in_history", "old_object_survived",
                    "target_absent_after", "target_unreadable_after", "complete_new_after_fault",
                    "write_once_refused", "stragglers_at_raise", "recovery_save_ok"]
+# thorough tier only: "sweep_exhaustive" / "sweep_strided" count how many workloads were swept over
+# EVERY fault position and how many (more than 700 store positions) over a stride
 
 C08_KINDS = ["int", "float", "bool", "none", "str", "path", "list", "tuple", "dict", "nd", "tensor",
              "obj", "numseq", "npscalar", "module"]
@@ -415,6 +417,16 @@ def run(plan):
         prng = Rng(plan.get("pos_seed", 0))
         store_pos, other = _positions(plan, fc, prng)
         if pos_spec == "all":
+            # every position, unless the workload is so large that the sweep would not fit the
+            # per-run wall limit: then every non-store position plus a deterministic stride over
+            # the store positions (the evidence counts exhaustive vs strided sweeps)
+            cap = 700
+            if len(store_pos) > cap:
+                step = -(-len(store_pos) // cap)
+                store_pos = store_pos[::step] + store_pos[-4:]
+                bump(res["probes"], "sweep_strided")
+            else:
+                bump(res["probes"], "sweep_exhaustive")
             positions = other + store_pos
         else:
             n = int(pos_spec.split(":")[1])
